@@ -18,6 +18,7 @@ import LlgVerif.Spec.Json
 import LlgVerif.Model.FloatRange
 import LlgVerif.Model.NumSat
 import LlgVerif.Model.Earley
+import LlgVerif.Model.Schema
 open LlgVerif Drv
 
 def wordsOf (l : List Nat) : List Word := l.map (fun n => BitVec.ofNat 32 n)
@@ -573,6 +574,87 @@ def handleEy (st : St) (args : List String) : St × String :=
     | _, _ => (st, "bad-op")
   | _ => (st, "bad-op")
 
+/-! schema IR (M7): s-expressions as printed by the hook `verif_intersect` and by `Sch.showS` -/
+
+def parseSchNum? (s : String) : Option Js.Num :=
+  if s = "0" then some { neg := false, mant := 0, exp := 0 } else
+  let neg := s.startsWith "-"
+  let body := if neg then (s.drop 1).toString else s
+  match body.splitOn "e" with
+  | [m, e] => do
+    let m ← m.toNat?
+    let e ← (if e.startsWith "-" then (e.drop 1).toString.toNat?.map (fun n => -(n : Int)) else e.toNat?.map (fun n => (n : Int)))
+    pure { neg := neg, mant := m, exp := e }
+  | _ => none
+
+def parseSchDec? (s : String) : Option Dec :=
+  match s.splitOn "e-" with
+  | [c, e] => do pure { coef := (← c.toNat?), exp := (← e.toNat?) }
+  | _ => none
+
+def optAtom {α : Type} (f : String → Option α) : SExp → Option (Option α)
+  | .atom "_" => some none
+  | .atom a => (f a).map some
+  | _ => none
+
+def rxOfSexpS : Nat → SExp → Option Sch.RxT
+  | 0, _ => none
+  | _ + 1, .list [.atom "atom", .atom a] => some (.atom a)
+  | _ + 1, .list [.atom "lit", .atom a] => some (.lit a)
+  | f + 1, .list [.atom "and", a, b] => do pure (.and2 (← rxOfSexpS f a) (← rxOfSexpS f b))
+  | _ + 1, _ => none
+
+mutual
+def schOfSexp : Nat → SExp → Option Sch.Sch
+  | 0, _ => none
+  | _ + 1, .atom "any" => some .any
+  | _ + 1, .atom "unsat" => some .unsat
+  | _ + 1, .atom "null" => some .null
+  | _ + 1, .list [.atom "bool", .atom b] =>
+    if b = "_" then some (.boolean none) else if b = "1" then some (.boolean (some true)) else if b = "0" then some (.boolean (some false)) else none
+  | _ + 1, .list [.atom "num", mn, mx, xmn, xmx, .atom i, mo] => do
+    let mn ← optAtom parseSchNum? mn
+    let mx ← optAtom parseSchNum? mx
+    let xmn ← optAtom parseSchNum? xmn
+    let xmx ← optAtom parseSchNum? xmx
+    let mo ← optAtom parseSchDec? mo
+    pure (.number { minimum := mn, maximum := mx, exclusiveMinimum := xmn, exclusiveMaximum := xmx, integer := i = "1", multipleOf := mo })
+  | f + 1, .list [.atom "str", .atom lo, hi, rx] => do
+    let lo ← lo.toNat?
+    let hi ← optAtom (fun s => s.toNat?) hi
+    let rx ← (match rx with | .atom "_" => some none | r => (rxOfSexpS f r).map some)
+    pure (.string lo hi rx)
+  | f + 1, .list [.atom "arr", .atom lo, hi, .list pre, items] => do
+    let lo ← lo.toNat?
+    let hi ← optAtom (fun s => s.toNat?) hi
+    let pre ← schLOfSexp f pre
+    match items with
+    | .atom "_" => pure (.array lo hi pre true .any)
+    | it => do pure (.array lo hi pre false (← schOfSexp f it))
+  | f + 1, .list (.atom "anyof" :: xs) => (schLOfSexp f xs).map .anyOf
+  | f + 1, .list (.atom "oneof" :: xs) => (schLOfSexp f xs).map .oneOf
+  | _ + 1, _ => none
+def schLOfSexp : Nat → List SExp → Option Sch.SchL
+  | 0, _ => none
+  | _ + 1, [] => some .nil
+  | f + 1, x :: xs => do pure (.cons (← schOfSexp f x) (← schLOfSexp f xs))
+end
+
+/-- `sch isect <budget> (pair A B)` -> `ok <A ∧ B>` | `err` (budget exhausted / multipleOf values do not combine) -/
+def handleSch (args : List String) : String :=
+  match args with
+  | "isect" :: fuel :: rest =>
+    match parseNat? fuel, parseSexp (" ".intercalate rest) with
+    | some fuel, some (.list [.atom "pair", a, b]) =>
+      match schOfSexp 200 a, schOfSexp 200 b with
+      | some a, some b =>
+        match Sch.intersect Dec.checkedLcm fuel a b with
+        | some r => "ok " ++ Sch.showS r
+        | none => "err"
+      | _, _ => "bad-op"
+    | _, _ => "bad-op"
+  | _ => "bad-op"
+
 def parseOptInt? (s : String) : Option (Option Int) :=
   if s = "none" then some none
   else if s.startsWith "-" then (s.drop 1).toString.toNat?.map (fun n => some (-(n : Int)))
@@ -708,6 +790,7 @@ def step (st : St) (line : String) : St × String :=
   | "opt" :: args => (st, handleOpt args)
   | "json" :: args => handleJson st args
   | "ey" :: args => handleEy st args
+  | "sch" :: args => (st, handleSch args)
   | "rb" :: args => handleRb st args
   | ["reset"] => ({}, "ok")
   | _ => (st, "bad-op")
